@@ -59,6 +59,8 @@ class Result:
     confirmed_by: list = field(default_factory=list)  # every configuration that answered unsat (the prover first)
     disagree: dict | None = None  # {"solver":, "model":} when a confirmation run answered sat (status == "disagree")
     confirm_attempts: list = field(default_factory=list)
+    risky_pattern: bool = False  # the file combines seq.extract with quantifiers (z3 has answered `unsat` wrongly on such files)
+    second_opinion: bool = False  # some configuration other than the prover also answered unsat
 
     @property
     def ok(self):
@@ -288,6 +290,16 @@ def needs_confirmation(path: str) -> bool:
     return "(forall " in txt and ("seq." in txt or "(declare-datatypes" in txt)
 
 
+def risky_file(path: str) -> bool:
+    """seq.extract together with quantifiers: the shape of two of the three known wrong `unsat` answers of z3"""
+    try:
+        with open(path) as f:
+            txt = f.read()
+    except OSError:
+        return False
+    return "seq.extract" in txt and "(forall " in txt
+
+
 def strict_seq(path: str) -> bool:
     """files on which z3's `unsat` has been seen to be wrong WITHOUT any configuration contradicting it (nested sequences
     `(Seq String)` + seq.extract under quantifiers, selftest/solver_regress/uncaught_*.smt2).  With PYVC_STRICT_SEQ=1 an
@@ -405,11 +417,18 @@ def solve_file(res: Result, timeout=10.0, portfolio=PORTFOLIO, confirm_unsat=Tru
             break
     # (an `unsat` of the old z3 4.8.12 is always re-examined: it has also been seen to answer unsat on a satisfiable
     # quantifier-free seq/array file, notes/C13.requests.md item 9)
-    if res.status == "proved" and not res.expect_fail and confirm_unsat and (needs_confirmation(path) or str(res.solver).startswith("z3-4.8")):
+    res.risky_pattern = (not res.expect_fail) and risky_file(path)
+    if res.status == "proved" and not res.expect_fail and confirm_unsat and (needs_confirmation(path) or res.risky_pattern or str(res.solver).startswith("z3-4.8")):
         dis, agree, att = confirm(path, res.solver, 3.0 if timeout <= 10 else 10.0)
         res.confirm_attempts = att
         res.confirmed_by += agree
         res.time_s += max([a["time_s"] for a in att], default=0.0)
+        res.second_opinion = len(res.confirmed_by) > 1
+        if (dis is None and res.risky_pattern and str(res.solver).startswith("z3") and not res.second_opinion
+                and os.environ.get("PYVC_STRICT_RISKY", "1") != "0"):
+            # strict rule (on by default): on a risky file a z3 `unsat` needs a second opinion (cvc5 or a noematch configuration)
+            res.status = "unknown"
+            res.info = dict(res.info, unconfirmed="z3-only unsat on a file with seq.extract under quantifiers (PYVC_STRICT_RISKY)")
         if dis is None and strict_seq(path) and not any(str(c_).startswith("cvc5") for c_ in res.confirmed_by):
             res.status = "unknown"  # only z3 says unsat on a file of the kind z3 is known to get wrong
             res.info = dict(res.info, unconfirmed="z3-only unsat on (Seq String)+seq.extract+quantifiers (PYVC_STRICT_SEQ=1)")
